@@ -5,31 +5,31 @@ HERE = os.path.dirname(os.path.dirname(os.path.abspath(__file__)))
 
 # id -> (category, technique, level text, level note, design ref)
 CHECKS = {
- "C01": ("exploration", "exhaustive enumeration: all strings over a 31-symbol alphabet up to length 4/5 through every parser entry point; construct corpus x boundary values, token mutations (bounded deviations), nestings to depth 64 executed in-process and by the real binary; crash/hang oracle",
+ "C01": ("exploration", "exhaustive enumeration: all strings over a 31-symbol alphabet up to length 4/5 through every parser entry point; construct corpus x boundary values, token mutations (bounded deviations), nestings to depth 64 executed in-process and by the real binary; crash/hang oracle; value re-interpretation cycles (arithmetic values, namerefs, aliases), payload sizes around page/pipe capacities x 12 movers, start-up environment sweep",
          "Every input in the stated finite spaces is parsed, executed and fed to the line-editor entry points on the real code, with process isolation so aborts, stack overflows and hangs are observed rather than lost.",
          "Trusted: worker isolation and timeouts (a hang counts only after an isolated re-run with a doubled cap and only if bash finishes the same script). Not covered: inputs beyond the bounds; unbounded work bash does not finish either.", "5/C01"),
  "C02": ("exploration", "exhaustive enumeration of all programs of a typed control-flow grammar up to a size bound; differential against bash on traces and every intermediate $?",
          "All programs with <= 3/4 nodes over the full leaf set (+ exactly 4/5 nodes over a reduced leaf set) are run through Shell::run_script and through bash; traces with status probes must be equal.",
          "Trusted: bash 5.2.15 as oracle, the renderer. Not covered: larger programs.", "5/C02"),
- "C03": ("exploration", "exhaustive enumeration of failing-leaf placements x exemption contexts x option combinations (errexit, pipefail, inherit_errexit, errtrace/ERR) and of expansion forms x unset targets under nounset; differential against bash",
+ "C03": ("exploration", "exhaustive enumeration of failing-leaf placements x exemption contexts x option combinations (errexit, pipefail, inherit_errexit, errtrace/ERR) and of expansion forms x unset targets under nounset; differential against bash; the failing leaf also as builtin/external/assignment-with-failing-substitution/subshell/(( ))/[[ ]]",
          "Every program with a failing leaf up to the size bound, in every wrapper and option set, plus toggles of set -e inside functions/subshells, is run on both shells; last marker, ERR markers and exit status compared.",
          "Trusted: bash as oracle. Script-file mode on both sides.", "5/C03"),
- "C04": ("exploration", "exhaustive enumeration of all values over a 20-symbol adversarial alphabet up to length 2/3 x 23 quoting contexts x 10 IFS/glob configurations; identity oracle on the argv seen by a capturing builtin",
+ "C04": ("exploration", "exhaustive enumeration of all values over a 20-symbol adversarial alphabet up to length 2/3 x 23 quoting contexts x 10 IFS/glob configurations; identity oracle on the argv seen by a capturing builtin; \"$@\"/\"${a[@]}\" glued to other pieces inside the same quotes",
          "Values are injected and read back through the API, so the quoting layer cannot mask a defect; every context must deliver exactly the original string(s).",
          "Trusted: the capturing builtin (15 lines). No bash needed.", "5/C04"),
- "C05": ("exploration", "exhaustive enumeration of all words of <= 2/3 pieces over 26 piece kinds x values x positional lists x IFS settings x directory trees; differential against bash on the resulting argument list",
+ "C05": ("exploration", "exhaustive enumeration of all words of <= 2/3 pieces over 26 piece kinds x values x positional lists x IFS settings x directory trees; differential against bash on the resulting argument list; composite double-quoted pieces (defaults/alternates with inner quoting)",
          "Each word is expanded in-process (capturing builtin) and by bash under the same variables, IFS and files; argument lists must be identical.",
          "Trusted: bash as oracle.", "5/C05"),
- "C06": ("exploration", "exhaustive enumeration of (value, operator, operand) triples; differential against bash plus the bash-independent shortest/longest prefix/suffix law evaluated with a reference matcher",
+ "C06": ("exploration", "exhaustive enumeration of (value, operator, operand) triples; differential against bash plus the bash-independent shortest/longest prefix/suffix law evaluated with a reference matcher; replacement texts; extglob alternation groups; every operator also through ${!r}, ${a[1]}, ${1}",
          "All patterns up to length 2/3 x all values up to length 3 through the 8 pattern operators; substring forms over an offset/length grid; default family, case modification, transforms, indirection; scalars, positional lists, arrays; set/null/unset/declared-unset states with and without nounset.",
          "Trusted: bash as oracle; the reference matcher only on rows where it agrees with bash (counted).", "5/C06"),
- "C07": ("exploration", "exhaustive enumeration of all expression trees up to depth 1 (24 operands) and depth 2 (reduced operands) over all operators, rendered from the tree by the reference C precedence table; reference evaluator validated against bash + bash itself",
+ "C07": ("exploration", "exhaustive enumeration of all expression trees up to depth 1 (24 operands) and depth 2 (reduced operands) over all operators, rendered from the tree by the reference C precedence table; reference evaluator validated against bash + bash itself; expressions that differ only in white space but tokenise differently, evaluated pairwise in one shell (order dependence)",
          "Every tree is evaluated in $(( )), and depth-1 trees also in (( )), let, a[E], ${s:E}, declare -i; results and variable side effects must equal bash's / the reference evaluator's.",
          "Trusted: bash; the 120-line reference evaluator (its agreement with bash on the run is reported).", "5/C07"),
  "C08": ("exploration", "exhaustive enumeration of all (pattern, subject) pairs over small alphabets through case, [[ ]], literal and quoted patterns, and of all small directory trees x glob patterns; differential against bash + reference matcher",
          "All patterns with <= 3/4 symbols x 259 subjects under extglob/nocasematch settings; pathname expansion over all trees of <= 2/3 names x 820 patterns x dotglob/nullglob.",
          "Trusted: bash under C.utf8 as oracle.", "5/C08"),
- "C09": ("exploration", "exhaustive enumeration of all action sequences up to length 2/3 over 44 writers/declarations at 4 placements (top level, function, caller+callee, depth 3); differential against bash on declare -p dumps and the child environment after every step",
+ "C09": ("exploration", "exhaustive enumeration of all action sequences up to length 2/3 over 44 writers/declarations at 4 placements (top level, function, caller+callee, depth 3); differential against bash on declare -p dumps and the child environment after every step; temporary assignments on failing builtins",
          "Every writer path (assignment, +=, element assignment, for, read, printf -v, (( )), ${v:=}, getopts, mapfile, temporary assignments) is combined with every attribute declaration and scope placement.",
          "Trusted: bash as oracle.", "5/C09"),
  "C10": ("exploration", "exhaustive enumeration of redirection lists up to length 2/3 over 26 items x 7 command kinds (+noclobber) and of here-document bodies x delimiter forms x placements; differential against bash + restoration invariant",
@@ -38,31 +38,31 @@ CHECKS = {
  "C11": ("exploration", "exhaustive enumeration of pipeline shapes (stage kind x position) x payload sizes around the pipe capacity x stage delays x early-exit consumers on the real binary under a wall-clock cap; differential against bash",
          "Every stage kind (external, builtin, function, group, subshell, while-read) in every position of 2/3/4-stage pipelines with payloads from 0 B to 1 MiB; output checksum, PIPESTATUS, $?; hangs confirmed by an isolated re-run.",
          "Trusted: bash as oracle; cap = max(2.5 s, 20 x bash's time), doubled on confirmation. Stage-start orders below the 0/100 ms delay granularity are not enumerated.", "5/C11"),
- "C12": ("exploration", "exhaustive enumeration of mutator sequences up to length 2/3 over 40 mutators inside 10 subshell contexts; self-differential on a full dump of the parent (serde Shell state + process-level state)",
+ "C12": ("exploration", "exhaustive enumeration of mutator sequences up to length 2/3 over 40 mutators inside 10 subshell contexts; self-differential on a full dump of the parent (serde Shell state + process-level state); 14 contexts incl. 3/4-stage pipelines x 5 parent option modes; exec-with-command mutators",
          "The parent's complete state before the subshell construct must equal the state after it; process-wide umask, RLIMIT_NOFILE, cwd and descriptor count are read by the harness itself.",
          "Trusted: the dump/diff code. Concurrent orders of the asynchronous contexts are not enumerated.", "5/C12"),
  "C13": ("exploration", "exhaustive enumeration of all values over a 21-symbol quoting alphabet up to length 2/3 x 16 producers; round-trip oracle through a fresh brush and through bash",
          "Every produced text (printf %q, @Q, @A, declare -p with attributes/arrays/assoc, set, export -p, alias, trap -p, xtrace) is evaluated again in argument and assignment position and must give back the original value.",
          "Trusted: bash as second reader.", "5/C13"),
- "C14": ("exploration", "exhaustive enumeration of function bodies (grammar up to 3/4 nodes + 61 printer features in 11 enclosing constructs + pairs); fixed-point, AST-equality, behaviour, export/import and bash-acceptance oracles",
+ "C14": ("exploration", "exhaustive enumeration of function bodies (grammar up to 3/4 nodes + 61 printer features in 11 enclosing constructs + pairs); fixed-point, AST-equality, behaviour, export/import and bash-acceptance oracles; 7 definition forms (body redirections, subshell body, function keyword)",
          "parse -> print -> parse -> print on the real parser/printer; serde ASTs compared with locations erased; the printed text is run, exported through BASH_FUNC_f%% and re-imported, and fed to bash.",
          "Trusted: serde form of the AST; bash.", "5/C14"),
- "C15": ("exploration", "exhaustive enumeration of programs x 5 delivery modes, of every line-prefix on standard input, and of (text, option-set) sequences against a pristine-process table (cache transparency)",
+ "C15": ("exploration", "exhaustive enumeration of programs x 5 delivery modes, of every line-prefix on standard input, and of (text, option-set) sequences against a pristine-process table (cache transparency); one program per construct that can hold a command open across a line end",
          "Same program through script file, -c, source, eval (public entry points) and stdin (real binary) against bash per mode and against each other; prefixes decide completeness behaviourally; long-lived workers vs one fresh process per (text, options).",
          "Trusted: bash per mode. LINENO is compared per mode only.", "5/C15"),
- "C16": ("exploration", "exhaustive enumeration of termination path x nesting context x trap life-cycle x handler kind x front-end; invariants read from stdout + bash",
+ "C16": ("exploration", "exhaustive enumeration of termination path x nesting context x trap life-cycle x handler kind x front-end; invariants read from stdout + bash; every subset of {DEBUG, ERR, EXIT} x handler bodies x programs x option sets",
          "EXIT marker count and position, $? seen by the handler, process status, on file/-c (public entry points) and stdin (real binary).",
          "Trusted: the invariant checker; bash.", "5/C16"),
- "C17": ("model_checking", "explicit-state breadth-first search over event histories executed on the real job table (gate-controlled job durations); invariants in every state; replay determinism re-checked",
+ "C17": ("model_checking", "explicit-state breadth-first search over event histories executed on the real job table (gate-controlled job durations); invariants in every state; replay determinism re-checked; job kinds incl. error-ending jobs are part of the state key; awaited jobs released one at a time",
          "All histories of depth <= 6/8 over launch (4 kinds), finish k, prompt poll, jobs, wait, wait %n, foreground marker with <= 3/4 jobs; states merged by canonical observation; distinct job numbers, wait-returns-after-jobs (happens-before through markers), markers exactly once.",
          "Trusted: the gate builtin and the replay driver. Orders inside a single builtin are not explored.", "5/C17"),
- "C18": ("exploration", "exhaustive enumeration of command sequences up to length 2/3 over 54 leaves (28 fault leaves) repeated 2/50/500 times in one shell; resource-count invariants",
+ "C18": ("exploration", "exhaustive enumeration of command sequences up to length 2/3 over 54 leaves (28 fault leaves) repeated 2/50/500 times in one shell; resource-count invariants; each sequence also inside a function / sourced file / trap handler / loop-called function, with a stack probe per iteration",
          "Descriptor count, zombie children, scope depth and call-stack depth (serde) after N iterations must equal those after one; the N-th iteration prints what the first did.",
          "Trusted: /proc readings after a settle period.", "5/C18"),
  "C19": ("exploration", "exhaustive enumeration of all lines over a 16-symbol alphabet up to length 5/6 x every cursor, plus construct corpus; invariant oracle on the real highlighter",
          "Every (line, cursor) pair within the bound is evaluated on the real highlight_command and the span invariant of the statement is checked literally.",
          "Trusted: the harness' invariant checker (30 lines). Not covered: longer lines, shells with user-defined aliases/functions.", "5/C19"),
- "C20": ("model_checking", "explicit-state model checking (stateright BFS) in which every transition executes the real Shell/History code and is compared with a reference model; statement invariants checked on the real file",
+ "C20": ("model_checking", "explicit-state model checking (stateright BFS) in which every transition executes the real Shell/History code and is compared with a reference model; statement invariants checked on the real file; search started from the empty history and from three seed files (mixed timestamped/bare)",
          "All operation sequences of depth <= 5/7 over add (4 commands), save, new session, delete first/last, clear, toggle timestamps, history -w, history -a; second run must reproduce state/transition counts.",
          "Trusted: the 40-line reference model of the property. Multi-line commands are outside the statement.", "5/C20"),
 }
@@ -92,9 +92,9 @@ def main():
         "version": 1,
         "setup_cmd": "cd /verif/harness && CARGO_NET_OFFLINE=true cargo build --release --offline",
         "hooks": {
-            "guard": "cargo feature `verif-hooks` on brush-core",
-            "enable": "the harness crate's dependency declaration enables the feature (harness/Cargo.toml); the repository's own builds never do",
-            "baseline_off_cmd": "cd /repo && cargo nextest run --workspace --no-fail-fast --test-threads 8 --offline",
+            "guard": "none: no hook or instrumentation was added to the repository (every check drives public APIs of the crates and the real binary); had one been needed it would have been the cargo feature `verif-hooks`",
+            "enable": "nothing to enable: the harness links /repo's crates unmodified (with their existing `serde` feature)",
+            "baseline_off_cmd": "cd /repo && cargo nextest run --workspace --no-fail-fast --tool-config-file pb:/w/lib/nextest.toml --profile pb --test-threads 8 --offline",
             "source_commits": [],
             "add_only": True,
         },
